@@ -617,13 +617,17 @@ def nasty_fits(res, rng):
             obs, text = observe(lambda: gam.fit(X_, y, **kw), X_)
             res.case(('nasty', cls, tag), nontrivial=True)
             res.count('nasty-fit:%s' % obs)
+            fid = None
+            if obs == 'ORetNonFinite':
+                fid, more = s21_diagnosis(gam, X_)
+                text += more
             if obs not in ('OVE', 'OOptErr', 'ORetFinite'):
                 res.violations.append(dict(
                     what='%s.fit on valid data (%s) neither raised ValueError nor returned a finite model' % (cls, tag),
                     input=dict(cls=cls, scenario=tag, seed=res.seed, X=np.asarray(X_).tolist(), y=y.tolist(),
                                weights=None if w is None else w.tolist()),
                     expected='ValueError (incl. subclasses) or finite coef_ and finite training predictions',
-                    observed=text, finding=nasty_finding(cls, tag, obs, text)))
+                    observed=text, finding=fid))
 
 
 def generic_gam_fits(res, rng):
@@ -716,6 +720,40 @@ def generic_gam_fits(res, rng):
                             s(0, n_splines=8) + l(1))
 
 
+LOG_DBL_MAX = float(np.log(np.finfo(float).max))        # exp(lp) is finite iff lp <= 709.78...
+
+
+def s21_diagnosis(gam, X):
+    """-> (finding id or None, text).  The known finding C11-S21: fit returned FINITE coefficients, and the non-finite
+    training predictions are exactly the rows whose final linear predictor lies outside the finite range of the inverse
+    link -- log: lp > log(DBL_MAX) (exp overflows; e.g. data of magnitude 1e150 times a coefficient of 1e-16);
+    inv_squared: lp <= 0 (lp ** -0.5); inverse: lp == 0.  (_mask dropped those rows silently in every PIRLS iteration and
+    nothing checks mu at the end.)  Anything else -- non-finite coef_, another link, another row pattern -- is untagged."""
+    try:
+        with warnings.catch_warnings():
+            warnings.simplefilter('ignore')
+            lp = np.asarray(gam._linear_predictor(X), dtype=float)
+            mu = np.asarray(gam.predict_mu(X), dtype=float)
+        coef_ok = bool(np.isfinite(gam.coef_).all())
+        bad = ~np.isfinite(mu)
+        lname = type(gam.link).__name__
+        text = '; coef_ finite=%s, %d of %d training predictions non-finite, linear predictor in [%.3g, %.3g], link %s' % (
+            coef_ok, int(bad.sum()), len(mu), float(np.nanmin(lp)), float(np.nanmax(lp)), lname)
+        if lname == 'LogLink':
+            outside = lp > LOG_DBL_MAX
+        elif lname == 'InvSquaredLink':
+            outside = lp <= 0
+        elif lname == 'InverseLink':
+            outside = lp == 0
+        else:
+            outside = np.zeros(len(lp), dtype=bool)
+        if coef_ok and bool(np.isfinite(lp).all()) and bool(bad.any()) and bool((bad == outside).all()):
+            return 'C11-S21-nonfinite-training-predictions', text
+        return None, text
+    except Exception as e:
+        return None, '; (diagnosis failed: %s)' % type(e).__name__
+
+
 def run_generic(res, rep, dname, lv, lname, tag, X, y, terms):
     from pygam import GAM
     from pygam.distributions import BinomialDist
@@ -731,30 +769,8 @@ def run_generic(res, rep, dname, lv, lname, tag, X, y, terms):
     obs, text = observe(go, X)
     fid = None
     if obs == 'ORetNonFinite':
-        try:
-            with warnings.catch_warnings():
-                warnings.simplefilter('ignore')
-                g = holder[0]
-                lp = g._linear_predictor(X)
-                mu = np.asarray(g.predict_mu(X), dtype=float)
-            coef_ok = bool(np.isfinite(g.coef_).all())
-            text += '; coef_ finite=%s, %d of %d training predictions non-finite, min linear predictor %.3g' % (
-                coef_ok, int((~np.isfinite(mu)).sum()), len(mu), float(np.min(lp)))
-            bad = ~np.isfinite(mu)
-            # the finite range of the inverse link: lp > 0 for inverse / inv_squared, no exp overflow for log / logit
-            if lname in ('inverse', 'inv_squared'):
-                outside = lp <= 0
-            elif lname in ('log', 'logit'):
-                with np.errstate(over='ignore'):
-                    outside = ~np.isfinite(np.exp(np.abs(lp)))
-            else:
-                outside = np.zeros(len(lp), dtype=bool)
-            if coef_ok and bool(bad.any()) and bool((bad == outside).all()):
-                # known finding S21: finite coefficients, but the training rows whose final linear predictor lies outside
-                # the finite range of the inverse link predict NaN/Inf (_mask dropped them silently in every iteration)
-                fid = 'C11-S21-nonfinite-training-predictions'
-        except Exception as e:
-            text += '; (diagnosis failed: %s)' % type(e).__name__
+        fid, more = s21_diagnosis(holder[0], X)
+        text += more
     res.case(('generic', rep, dname, lv, lname, tag), nontrivial=True)
     res.count('generic-fit:%s' % obs)
     raw_linalg = obs == 'OVE' and text.startswith('LinAlgError')
